@@ -1,8 +1,11 @@
 package logqlengine
 
 import (
+	"encoding/binary"
 	"maps"
 	"regexp"
+	"slices"
+	"strings"
 
 	"github.com/cespare/xxhash/v2"
 	"go.opentelemetry.io/collector/pdata/pcommon"
@@ -69,11 +72,28 @@ func (a *aggregatedLabels) Without(labels ...logql.Label) logqlmetric.Aggregated
 
 // Key computes grouping key from set of labels.
 func (a *aggregatedLabels) Key() logqlmetric.GroupingKey {
-	h := xxhash.New()
+	// Key must depend on the label set only: hash pairs in name order
+	// (entries come from map iteration) and length-prefix every string,
+	// so that {a="bc"} and {ab="c"} do not collide.
+	pairs := make([]labelEntry, 0, len(a.entries))
 	a.forEach(func(k, v string) {
-		_, _ = h.WriteString(k)
-		_, _ = h.WriteString(v)
+		pairs = append(pairs, labelEntry{name: k, value: v})
 	})
+	slices.SortFunc(pairs, func(x, y labelEntry) int {
+		return strings.Compare(x.name, y.name)
+	})
+
+	h := xxhash.New()
+	var size [8]byte
+	write := func(s string) {
+		binary.LittleEndian.PutUint64(size[:], uint64(len(s)))
+		_, _ = h.Write(size[:])
+		_, _ = h.WriteString(s)
+	}
+	for _, p := range pairs {
+		write(p.name)
+		write(p.value)
+	}
 	return h.Sum64()
 }
 
